@@ -158,6 +158,8 @@ class Squid:
         vlib.mkdirs(self.run)
         self.port = free_port()
         self.workers = workers
+        # SMP: one listening port per worker (squid.conf conditionals) so that a client can choose its worker
+        self.ports = [self.port] + [free_port() for _ in range(max(0, workers - 1))]
         self.proc = None
         self.env = dict(os.environ)
         if env:
@@ -174,7 +176,8 @@ class Squid:
                     f.write('%s %s\n' % (addr, h))
         t = tree
         conf = [
-            'http_port 127.0.0.1:%d %s' % (self.port, port_opts),
+            ('http_port 127.0.0.1:%d %s' % (self.port, port_opts)) if workers < 2 else
+            '\n'.join('if ${process_number} = %d\nhttp_port 127.0.0.1:%d %s\nendif' % (i + 1, pt, port_opts) for i, pt in enumerate(self.ports)),
             'pid_filename %s/squid.pid' % self.run,
             'cache_log %s/cache.log' % self.run,
             LOGFORMAT,
